@@ -46,6 +46,24 @@ def probeOutcome (c : Cfg) (score : Nat) (evs : List Ev) (expectedNacks : Nat) (
       else 1
     (true, d)
 
+/-- how the direct ping left the node: handed to the transport, refused with an error that blames the
+remote side (`failedRemote`: a udp dial/read/write `*net.OpError`), or refused with any other
+(local) error -/
+inductive Sent where
+  | ok | remoteError | localError
+  deriving DecidableEq, Repr
+
+/-- outcome of `probeNode` including the send of the direct ping. A local send error ends the probe at
+once: no verdict, no awareness change. A remote error jumps to the failure path (indirect pings, TCP
+fallback), skipping the line that arms the `-1`: a success there leaves the score alone. -/
+def probeWithSend (sent : Sent) (c : Cfg) (score : Nat) (evs : List Ev) (expectedNacks : Nat) (tcpOk : Bool) : Bool × Int :=
+  match sent with
+  | .ok => probeOutcome c score evs expectedNacks tcpOk
+  | .localError => (false, 0)
+  | .remoteError =>
+    let r := probeOutcome c score evs expectedNacks tcpOk
+    if r.1 then r else (false, 0)
+
 /-- `awareness.ApplyDelta` -/
 def applyDelta (max : Nat) (score : Nat) (delta : Int) : Nat :=
   let s : Int := (score : Int) + delta
